@@ -172,6 +172,24 @@ class Path(object):
         self.pc.append(e)
         self.solver.add(e)
 
+    def entails_quick(self, e, ms=800):
+        """entailment from the whole path condition under a small budget ("no" when undecided)"""
+        e = z3.simplify(e)
+        if z3.is_true(e):
+            return True
+        if z3.is_false(e):
+            return False
+        t0 = time.time()
+        self.solver.set('timeout', ms)
+        self.solver.push()
+        self.solver.add(z3.Not(e))
+        r = self.solver.check()
+        self.solver.pop()
+        self.solver.set('timeout', self.ex.timeout_ms)
+        self.ex.solver_s += time.time() - t0
+        self.ex.queries += 1
+        return r == z3.unsat
+
     def entails_ground(self, e):
         """entailment from the quantifier-free, string-free part of the path condition only (a subset of the hypotheses, hence
         sound); used for the cheap arithmetic side questions of list abstractions, where the full context makes "no" answers slow"""
